@@ -717,6 +717,30 @@ static void visit_call(const json& v)
         rep.mismatch(std::string("visit/trap") + tail, err, cs);
         return;
     }
+    // C05 / C19: where a complete visit leaves the cursor, and the cursor-based size,
+    // are observations of their own - reported whatever else differs on the way
+    auto check_end = [&] {
+        if(!v["complete"].get<bool>())
+            return;
+        if(end + (std::ptrdiff_t)v0 != v["end_cur"].get<std::ptrdiff_t>())
+            rep.mismatch(
+                std::string("visit/end") + tail,
+                "after a complete visit the cursor is at " + std::to_string(end + v0)
+                    + ", end of the message is "
+                    + std::to_string(v["end_cur"].get<long>()),
+                cs);
+        else
+            rep.ok("visit-end");
+        // C05: the cursor-based size after a full traversal is the encoded size
+        if(cursor_size_slot() != size)
+            rep.mismatch(
+                std::string("visit/cursor-size") + tail,
+                "size_bytes(message, cursor) after a complete traversal = "
+                    + std::to_string(cursor_size_slot()) + ", image length " + std::to_string(size),
+                cs);
+        else
+            rep.ok("visit-cursor-size");
+    };
     const json& el = v["log"];
     bool good = log.size() == el.size();
     std::size_t bad_i = 0;
@@ -748,6 +772,7 @@ static void visit_call(const json& v)
         cs["at"] = bad_i;
         rep.mismatch(
             std::string(stop ? "visit/stop-log" : "visit/log") + tail, why, cs);
+        check_end();
         return;
     }
     rep.ok(stop ? "visit-stop" : "visit-complete");
@@ -765,31 +790,12 @@ static void visit_call(const json& v)
                     + std::to_string(log[i].cur + v0) + ", protocol says "
                     + std::to_string(el[i]["cur"].get<long>()),
                 cs);
+            check_end();
             return;
         }
     }
     rep.ok("visit-cursors");
-    if(v["complete"].get<bool>())
-    {
-        if(end + (std::ptrdiff_t)v0 != v["end_cur"].get<std::ptrdiff_t>())
-            rep.mismatch(
-                std::string("visit/end") + tail,
-                "after a complete visit the cursor is at " + std::to_string(end + v0)
-                    + ", end of the message is "
-                    + std::to_string(v["end_cur"].get<long>()),
-                cs);
-        else
-            rep.ok("visit-end");
-        // C05: the cursor-based size after a full traversal is the encoded size
-        if(cursor_size_slot() != size)
-            rep.mismatch(
-                std::string("visit/cursor-size") + tail,
-                "size_bytes(message, cursor) after a complete traversal = "
-                    + std::to_string(cursor_size_slot()) + ", image length " + std::to_string(size),
-                cs);
-        else
-            rep.ok("visit-cursor-size");
-    }
+    check_end();
 }
 
 // ---- record mode: random in-order encoding of one message, logged for
